@@ -624,7 +624,7 @@ func main() {
 		}
 	} else {
 		r.Require("accept_with_witness", "reject_by_witness_check", "died_at_verify", "scenario_done", "calling_contract_accepted",
-			"calling_contract_rejected", "commit_open_after_timeout")
+			"calling_contract_rejected", "commit_open_after_timeout", "due_rejected_before_due", "due_operator")
 	}
 	installProbes()
 
@@ -701,6 +701,7 @@ func main() {
 		}
 		x.emptyAddress(scens)
 		x.latentContextLeak()
+		x.dueDimension()
 		if e.epoch2 == nil && r.NViolations() == 0 {
 			r.HarnessError("seeding the second epoch failed: commitDpos signed by the genesis operator entry was refused: %v", e.epoch2Err)
 		}
